@@ -38,9 +38,10 @@ def items(tier, seed):
             sc(t, e, 2, 'v_%s' % t, 1, 1.0)
     # B. 16-bit reps, radix 2
     for t in ('i16', 'u16'):
-        es = list(FIXED16) + [rnd.randint(-70, 70) for _ in range(2 if not thorough else 10)]
+        es = list(FIXED16) + [rnd.randint(-70, 70) for _ in range(2 if not thorough else 4)]
         for e in sorted(set(es)):
-            sc(t, e, 2, 'v_%s' % t, 1, 1.5 if not thorough else 40.0)
+            # thorough: every value; the middle of the length range is thinned (each length still met by 1/4 of the values)
+            sc(t, e, 2, 'v_%s' % t, 1 if not thorough else 4, 1.5 if not thorough else 40.0)
     # C. wider reps: lattice, every length near both ends of the range
     for t, es in WIDE_E.items():
         es = list(es) + [rnd.randint(-70, 70) for _ in range(1 if not thorough else 6)]
@@ -71,6 +72,9 @@ def items(tier, seed):
         out.append((0.1, 'tc::fix_sweep<scaled_integer<%s, power<%d, %d>>>(v_%s);' % (CT[t], e, r, t)))
     for t in CT:
         out.append((0.1, 'tc::fix_sweep<%s>(v_%s);' % (CT[t], t)))
+    # to_chars_static<Base>: bases other than ten
+    for (t, b) in [('u8', 2), ('i8', 7), ('i32', 2), ('i32', 16), ('u16', 3), ('i64', 36), ('u64', 8), ('i128', 16), ('u32', rnd.randint(2, 36))]:
+        out.append((0.1, 'tc::fixb_sweep<%s, %d>(v_%s);' % (CT[t], b, t)))
     return out
 
 
